@@ -1234,6 +1234,17 @@ class Interp:
         nested = fn.enclosing is not None or q == "<lambda>"
         if nested or q in self.inline:
             return self.run_closure(fn, args, kwargs)
+        # a PRIVATE helper of the repository without a contract (typically extracted by a refactor): interpreted in place, at most
+        # three levels deep, and recorded (evidence: dropped_by_extraction lists it) - exact, so it can only add precision
+        short = q.rsplit(".", 1)[-1].rsplit(":", 1)[-1]
+        depth = getattr(self, "_auto_inline_depth", 0)
+        if short.startswith("_") and not short.startswith("__") and depth < 3 and hasattr(fn, "node"):
+            self.dropped.add(f"contract-less private helper interpreted in place: {q}")
+            self._auto_inline_depth = depth + 1
+            try:
+                return self.run_closure(fn, args, kwargs)
+            finally:
+                self._auto_inline_depth = depth
         raise Unsupported(f"no contract for callee {q}")
 
     def apply_contract(self, key, args, kwargs):
@@ -1951,18 +1962,24 @@ class Interp:
         yields = [e for e in eff if e[0] == "yield"]
         nested_y = [e for e in eff if e[0] == "nested" and e[1][0] == "yield"]
         if nested_y:
-            # a generator with two nested loops, one yield per inner iteration: the yielded sequence is the row-major
-            # flattening of cell(i, j); it is kept as a two-level value (Flat2Seq), no div/mod reasoning
-            if yields or len(nested_y) != 1:
-                raise Unsupported("generator with several yields in nested loops")
-            _, (_, v, gi), jdx, m, go = nested_y[0]
-            if not (z3.is_true(z3.simplify(gi)) and z3.is_true(z3.simplify(go))):
-                raise Unsupported("conditional yield in nested loops")
-            mz = to_int(m)
+            # a generator with two nested loops: the yielded sequence is the row-major flattening over (i, j) of the body's
+            # yields; it is kept as a two-level value (no div/mod reasoning).  One unconditional yield per inner iteration gives
+            # a Flat2Seq (cell(i, j)); several / conditional yields give a NestedYields (per yield: value(i, j), guard(i, j)).
+            if yields:
+                raise Unsupported("generator yielding both inside and outside its inner loop")
+            jdx0, m0 = nested_y[0][2], nested_y[0][3]
+            mz = to_int(m0)
             if not z3.eq(z3.substitute(mz, (idx, idx + 1)), mz):
                 raise Unsupported("inner loop length depends on the outer index")
-            self.gen_frame().yields.append(Flat2Seq(n, mz, lambda i, j, t=v: subst(t, [(idx, to_int(i)), (jdx, to_int(j))])))
-            eff = [e for e in eff if e is not nested_y[0]]
+            for e in nested_y:
+                if e[2] is not jdx0 or not z3.is_true(z3.simplify(e[4])):
+                    raise Unsupported("yields from different inner loops / under an outer condition")
+            mk = lambda t: (lambda i, j, t=t: subst(t, [(idx, to_int(i)), (jdx0, to_int(j))]))
+            if len(nested_y) == 1 and z3.is_true(z3.simplify(nested_y[0][1][2])):
+                self.gen_frame().yields.append(Flat2Seq(n, mz, mk(nested_y[0][1][1])))
+            else:
+                self.gen_frame().yields.append(NestedYields(n, mz, [(mk(e[1][1]), mk(wrap(e[1][2]))) for e in nested_y]))
+            eff = [e for e in eff if not any(e is y for y in nested_y)]
         others = [e for e in eff if e[0] not in ("yield", "raise")]
         if yields:
             if len(yields) != 1 or not z3.is_true(z3.simplify(yields[0][2])):
@@ -2034,6 +2051,19 @@ class Flat2Seq(SSeq):
 
     def _flat(self, q):
         raise Unsupported("flat index into a nested-loop sequence (use .cell(i, j))")
+
+
+class NestedYields(SSeq):
+    """Yields of two nested loops with several and/or conditional yields per inner iteration: for each yield statement k (in
+    program order) value_k(i, j) is emitted at inner iteration (i, j) iff guard_k(i, j)."""
+
+    def __init__(self, rows, cols, yields):
+        self.rows, self.cols, self.yields = rows, cols, yields
+        super().__init__(wrap(z3.Int("nested_yield_count")), self._flat, "nested-loop-yields")
+        self.pvc_type = "list"
+
+    def _flat(self, q):
+        raise Unsupported("flat index into a nested-loop sequence")
 
 
 class _MergeStop(Exception):
